@@ -64,7 +64,13 @@ def gen(seed: int, tier: str) -> dict[str, Any]:
             op["n"] = rng.choice([2, 3, 4, 5, 8, 11, 14, 20, 60])
             op["algo"] = rng.choice(["enc", "auth"])
         ops.append(op)
-    return {"seed": seed, "tier": "S", "config": {"batch": 1}, "ops": ops}
+    # further key-issue callbacks next to the recording one: a one-shot callback (unregisters itself when it is called), one
+    # that registers another callback when called, one that raises - before or after the recording one
+    extra = []
+    if rng.random() < 0.3:
+        for _ in range(rng.choice([1, 2])):
+            extra.append({"k": rng.choice(["oneshot", "registers", "raises", "plain"]), "first": rng.random() < 0.5})
+    return {"seed": seed, "tier": "S", "config": {"batch": 1}, "ops": ops, "issue_cbs": extra}
 
 
 def run(plan: dict[str, Any]) -> dict[str, Any]:
@@ -95,6 +101,32 @@ def run(plan: dict[str, Any]) -> dict[str, Any]:
     def nxt():
         seq[0] += 1
         return seq[0]
+
+    tq = rx.xknx.telegram_queue
+    extra_calls: list[str] = []
+
+    def mk_issue_cb(spec):
+        unreg = [None]
+
+        def cb(tg):
+            extra_calls.append(spec["k"])
+            if spec["k"] == "oneshot" and unreg[0] is not None:
+                unreg[0]()
+            elif spec["k"] == "registers":
+                tq.register_data_secure_group_key_issue_cb(lambda t: extra_calls.append("late"))
+            elif spec["k"] == "raises":
+                raise RuntimeError("scripted key-issue callback failure")
+        return cb, unreg
+
+    for spec in plan.get("issue_cbs") or []:
+        cb_, unreg_ = mk_issue_cb(spec)
+        if spec["first"]:
+            # in front of the recording callback
+            tq.unregister_data_secure_group_key_issue_cb(rx._on_issue)   # pylint: disable=protected-access
+            unreg_[0] = tq.register_data_secure_group_key_issue_cb(cb_)
+            tq.register_data_secure_group_key_issue_cb(rx._on_issue)     # pylint: disable=protected-access
+        else:
+            unreg_[0] = tq.register_data_secure_group_key_issue_cb(cb_)
 
     async def main():
         rx.xknx.devices.async_add(RecSwitch(rx.xknx, "k", group_address=GroupAddress(GK), sync_state=False))
